@@ -21,6 +21,8 @@ pub enum G {
     /// `--rect (--w W | --s S) --color C` beside a top-level `--s SCALE` declared after the group:
     /// a member that is a choice, and a name shared with the surrounding level
     AltRect,
+    /// a choice between two different adjacent groups: `--rect --w W | --circ --r R`
+    TwoKinds,
 }
 #[derive(Clone, Copy, Debug, PartialEq, Eq, Serialize, Deserialize)]
 pub enum W {
@@ -60,6 +62,10 @@ fn group(g: G) -> P {
         G::Rect => P::Adj(vec![point, arg("w"), arg("h"), P::Switch(Names::long("o"))]),
         G::Mix => P::Adj(vec![point, arg("w"), pos("X")]),
         G::ArgPair => P::Adj(vec![arg("x"), arg("y")]),
+        G::TwoKinds => P::Alt(vec![
+            P::Map(P::Adj(vec![P::ReqFlag(Names::long("rect")), arg("w")]).bx(), "R".into()),
+            P::Map(P::Adj(vec![P::ReqFlag(Names::long("circ")), arg("r")]).bx(), "C".into()),
+        ]),
         G::AltRect => P::Adj(vec![P::ReqFlag(Names::long("rect")), P::Alt(vec![P::Map(arg("w").bx(), "W".into()), P::Map(arg("s").bx(), "S".into())]), arg("color")]),
     }
 }
@@ -98,6 +104,7 @@ pub fn alphabet_for(g: G) -> Vec<Tok> {
         G::Mix => toks(&["--point", "--w", "--w=1", "2", "3", "-v", "--"]),
         G::ArgPair => toks(&["--x", "--x=1", "--y", "--y=2", "3", "-v", "--"]),
         G::AltRect => toks(&["--rect", "--w=1", "--s=2", "--s", "--color=r", "3", "-v"]),
+        G::TwoKinds => toks(&["--rect", "--circ", "--w=1", "--r=2", "--w", "3", "-v"]),
     }
 }
 
@@ -162,6 +169,27 @@ pub fn model(d: &Def, argv: &[Tok]) -> Option<Val> {
                 _ => return None,
             };
             blocks.push(Val::T(vec![x, y]));
+            continue;
+        }
+        if d.g == G::TwoKinds && (t.0 == b"--rect" || t.0 == b"--circ") {
+            let plain = |i: usize| i < argv.len() && argv[i].0 != b"--" && is_word(&argv[i]);
+            let (tag, name) = if t.0 == b"--rect" { ("R", "w") } else { ("C", "r") };
+            i += 1;
+            let v = match argv.get(i) {
+                Some(n) if n.0 == format!("--{}", name).as_bytes() => {
+                    if !plain(i + 1) {
+                        return None;
+                    }
+                    i += 2;
+                    s(&argv[i - 1])
+                }
+                Some(n) if n.0.starts_with(format!("--{}=", name).as_bytes()) => {
+                    i += 1;
+                    Val::S(Tok(n.0[name.len() + 3..].to_vec()))
+                }
+                _ => return None,
+            };
+            blocks.push(Val::tag(tag, Val::T(vec![Val::B(true), v])));
             continue;
         }
         if d.g == G::AltRect {
@@ -277,7 +305,7 @@ pub fn model(d: &Def, argv: &[Tok]) -> Option<Val> {
                         _ => return None,
                     }
                 }
-                G::ArgPair | G::AltRect => return None, // `--point` is not declared
+                G::ArgPair | G::AltRect | G::TwoKinds => return None, // `--point` is not declared
                 G::Mix => {
                     let (mut w, mut x) = (None, None);
                     loop {
@@ -378,6 +406,7 @@ pub fn defs(len: usize, with_p3: bool) -> Vec<Def> {
         gs.push(G::Point3);
         gs.push(G::ArgPair);
         gs.push(G::AltRect);
+        gs.push(G::TwoKinds);
     }
     for g in gs {
         for w in [W::Bare, W::Opt, W::Many] {
